@@ -196,6 +196,20 @@ def cmp(op, a, b):
         return bconst(_CMP[op](cval(a), cval(b)))
     if a is b:
         return bconst(op != "lt")
+    if op in ("le", "lt") and a.sort == "R":
+        # comparisons with 0 decided by structure (squares, sums of squares, roots)
+        if is_const(a) and cval(a) == 0:
+            sg = structural_sign(b)
+            if sg == "+" or (sg in ("0+", "0") and op == "le"):
+                return TRUE
+            if sg == "-" or (sg in ("0-", "0") and op == "lt"):
+                return FALSE
+        elif is_const(b) and cval(b) == 0:
+            sg = structural_sign(a)
+            if sg == "-" or (sg in ("0-", "0") and op == "le"):
+                return TRUE
+            if sg == "+" or (sg in ("0+", "0") and op == "lt"):
+                return FALSE
     if op == "eq" and a.uid > b.uid:
         a, b = b, a
     return mk(op, (a, b), "B")
@@ -373,8 +387,20 @@ def node_vars(root: Node, acc=None):
     return acc
 
 
+_SIGN_MEMO = {}
+
+
 def structural_sign(n: Node):
     """'+' (>0), '0+' (>=0), '-' , '0-', '0', or None (unknown), from structure."""
+    r = _SIGN_MEMO.get(n.uid, 0)
+    if r != 0:
+        return r
+    r = _structural_sign(n)
+    _SIGN_MEMO[n.uid] = r
+    return r
+
+
+def _structural_sign(n: Node):
     op = n.op
     if op == "const":
         v = cval(n)
